@@ -411,7 +411,7 @@ def populate_ops(rng, cs, n_files=4, n_dirs=2):
     return ops, files, [d.rstrip("/") for d in dirs if d]
 
 
-def ro_program(rng, pid, cfg, cs, n_ops, end_setup="unmount", poke=None, end="unmount"):
+def ro_program(rng, pid, cfg, cs, n_ops, end_setup="unmount", poke=None, end="unmount", no_stats=False):
     """populate, end the session, then a session made only of non-mutating calls (C13)"""
     ops, files, dirs = populate_ops(rng, cs)
     e = {"op": end_setup}
@@ -446,7 +446,7 @@ def ro_program(rng, pid, cfg, cs, n_ops, end_setup="unmount", poke=None, end="un
             ops.append({"op": "close", "h": h})
             del hs[h]
         elif r < 0.86:
-            ops.append({"op": "stats"})
+            ops.append({"op": "status" if no_stats else "stats"})
         elif r < 0.92:
             ops.append({"op": "status"})
         elif r < 0.96:
@@ -623,6 +623,20 @@ def format_requests(rng, quick=True):
                 est = lim * spc + (33 if ft != 32 else 8) + 2 * ((lim * (ft // 4) // 2) // 512 + 1)
                 add(est + d * spc, ft=ft, bpc=512 * spc)
                 add(est + d, ft=ft, bpc=512 * spc)
+    # 3a. dense ranges: every sector count of the FAT12 range for default options (the table size is a quotient of rounded terms, which
+    #     goes wrong in narrow windows), forced FAT12 with small clusters, and every count around the width boundaries
+    for s_ in range(130, 8500 if quick else 70000):
+        add(s_)
+    for s_ in range(42, 4300):
+        add(s_, ft=12, bpc=512)
+    for s_ in range(4000, 9000, 1 if not quick else 2):
+        add(s_, ft=12, bpc=1024)
+    for s_ in list(range(4080, 4260)) + list(range(65900, 66300)):
+        add(s_, bpc=512)
+        add(s_, bpc=512, ft=16)
+        add(s_, bpc=512, fats=1, root=16)
+    for s_ in range(66000, 66700, 1 if not quick else 3):
+        add(s_, bpc=512, ft=32)
     # 3b. very large tables (2^27 and more entries), the FAT32 cluster limit with small clusters
     for sectors, bpc in ((3 << 30, 8192), (1 << 31, 4096), ((1 << 31) + 12345, 4096), (0xFFFFFFFF, 8192), (0xFFFFFFFF, 16384), (0xFFFFFFFF, 4096),
                          (0x0FFFFFF5 + 2200000, 512), (0x0FFFFFF5 * 2 + 2200000, 1024)):
@@ -699,6 +713,8 @@ def mount_specs(rng, bases, quick=True):
                     muts.append({"f": f, "vals": [0, 1, 0x55AA, 0xAA55, 0xFFFF]})
                 for f in F16[:6]:
                     muts.append({"f": f, "all": 16, "stride": 997})
+            # sector counts that give exactly the cluster counts at which the FAT width changes
+            muts.append({"clusters": [1, 2, 4083, 4084, 4085, 4086, 65523, 65524, 65525, 65526, 0x0FFFFFF4, 0x0FFFFFF5, 0x0FFFFFF6]})
             # random combinations of 2-4 fields
             allf = F8 + F16 + F32
             for _ in range(500 if quick else 30000):
@@ -872,6 +888,27 @@ def stamp_values(rng, quick=True):
                 for d in range(1, 32):
                     vals.append((y, m, d, rng.choice(hs), rng.choice(mis), rng.choice(ss), rng.choice(mss)))
     return vals
+
+
+def near_stamps(rng, n):
+    """sequences of stamps that differ from the previous one by less than the resolution of a field (same 2-second slot, same day, ...)"""
+    out = []
+    t = [rng.randrange(1980, 2108), rng.randrange(1, 13), rng.randrange(1, 29), rng.randrange(24), rng.randrange(60), rng.randrange(0, 58), rng.randrange(0, 990)]
+    for _ in range(n):
+        step = rng.choice(["ms", "ms", "sec", "2sec", "min", "day", "same"])
+        t = list(t)
+        if step == "ms":
+            t[6] = (t[6] + rng.choice([10, 20, 250, 1, 9])) % 1000
+        elif step == "sec":
+            t[5] = t[5] ^ 1                      # the other second of the same 2-second slot
+        elif step == "2sec":
+            t[5] = (t[5] + 2) % 60
+        elif step == "min":
+            t[4] = (t[4] + 1) % 60
+        elif step == "day":
+            t[2] = t[2] % 28 + 1
+        out.append(tuple(t))
+    return out
 
 
 def stamp_program(rng, pid, cfg, triples, atime=False):
@@ -1362,3 +1399,90 @@ def dir_cases(rng, quick=True):
             d.append(s)
         dirs.append(d)
     return dirs
+
+
+# ------------------------------------------------------------------------------------------------
+# multi-session families
+
+def with_remounts(prog, rng, k=2):
+    """insert k session ends (unmount / dropfs) at random positions: handles still open are closed by the executor"""
+    ops = list(prog["ops"])
+    for _ in range(k):
+        if len(ops) > 6:
+            ops.insert(rng.randrange(3, len(ops) - 1), {"op": rng.choice(["unmount", "dropfs"])})
+    return dict(prog, ops=ops, id=prog["id"] + "-rm")
+
+
+def first_mutation_program(rng, pid, cfg, cs, end="unmount"):
+    """session 1 populates; then one session per mutation kind in which that mutation is the FIRST change after a clean mount
+    (C12: every mutating path must set the dirty bit by itself; C05: a session that only frees must still persist the count)"""
+    ops = [{"op": "create_dir", "at": "", "path": "d"}, {"op": "create_dir", "at": "", "path": "empty"}]
+    sizes = {"a.bin": 2 * cs + cs // 2, "b.bin": cs, "c.bin": 3 * cs, "d/e.bin": cs + 7, "zero.bin": 0, "t1.bin": 2 * cs + 10, "t2.bin": 2 * cs + 10,
+             "t3.bin": cs + 100, "r1.bin": 5, "r2.bin": cs + 1, "x1.bin": 2 * cs, "x2.bin": 10}
+    for i, (nm, sz) in enumerate(sizes.items()):
+        ops.append({"op": "create_file", "at": "", "path": nm, "as": "p%d" % i})
+        if sz:
+            ops.append({"op": "write_all", "h": "p%d" % i, "pat": i + 1, "len": sz})
+        ops.append({"op": "close", "h": "p%d" % i})
+    ops.append({"op": "unmount"})
+    muts = [
+        [("open_file", "t1.bin"), ("seek", "start", 2 * cs + 3), ("truncate",)],          # truncate inside the last cluster: no cluster freed
+        [("open_file", "t2.bin"), ("seek", "start", cs), ("truncate",)],                   # truncate at a cluster boundary
+        [("open_file", "t3.bin"), ("seek", "start", 0), ("truncate",)],                    # truncate to nothing
+        [("open_file", "a.bin"), ("seek", "start", 5), ("write", 7)],                      # overwrite in place
+        [("open_file", "b.bin"), ("seek", "end", 0), ("write", 3)],                        # append needing a new cluster (file ends on a boundary)
+        [("open_file", "d/e.bin"), ("seek", "end", 0), ("write", 3)],                      # append inside the last cluster
+        [("open_file", "zero.bin"), ("write", 1)],                                         # first cluster of an empty file
+        [("open_file", "c.bin"), ("set_modified",)],                                       # timestamps only
+        [("create_file", "new.txt")], [("create_dir", "newdir")], [("create_file", "d/new long file name.txt")],
+        [("remove", "r1.bin")], [("remove", "r2.bin")], [("remove", "empty")],
+        [("rename", "x1.bin", "x1 renamed.bin")], [("rename", "x2.bin", "d/x2.bin")],
+    ]
+    rng.shuffle(muts)
+    n = 0
+    for m in muts:
+        n += 1
+        h = "m%d" % n
+        # a read-only prelude, so that the mutation is really the first change of the session
+        ops.append({"op": "list", "at": "", "path": ""})
+        if rng.random() < 0.5:
+            ops.append({"op": "stats"})
+        for step in m:
+            if step[0] == "open_file":
+                ops.append({"op": "open_file", "at": "", "path": step[1], "as": h})
+            elif step[0] == "seek":
+                ops.append({"op": "seek", "h": h, "from": step[1], "off": step[2]})
+            elif step[0] == "truncate":
+                ops.append({"op": "truncate", "h": h})
+            elif step[0] == "write":
+                ops.append({"op": "write_all", "h": h, "pat": n, "len": step[1]})
+            elif step[0] == "set_modified":
+                ops.append({"op": "set_modified", "h": h, "t": [2001, 2, 3, 4, 5, 6, 0]})
+            elif step[0] in ("create_file", "create_dir"):
+                ops.append({"op": step[0], "at": "", "path": step[1]})
+            elif step[0] == "remove":
+                ops.append({"op": "remove", "at": "", "path": step[1]})
+            elif step[0] == "rename":
+                ops.append({"op": "rename", "at": "", "src": step[1], "to": "", "dst": step[2]})
+        if m[0][0] == "open_file":
+            ops.append({"op": rng.choice(["flush", "close"]), "h": h})
+        ops.append({"op": "stats"} if rng.random() < 0.3 else {"op": "status"})
+        ops.append({"op": rng.choice([end, "unmount", "dropfs"])})
+    ops.append({"op": "stats"})
+    ops.append({"op": "unmount"})
+    return {"id": pid, "cfg": cfg, "ops": ops, "origin": "first-mutation"}
+
+
+def end_of_table_volume(rng, ft):
+    """builder volume whose scan from the next-free hint runs into the end of the table: the last clusters are used (BAD), the hint
+    points at them, and the entries behind the last cluster look free (zero), as foreign formatters leave them"""
+    bps = 512
+    n = {12: rng.randrange(30, 80), 16: 4085 + rng.randrange(0, 40), 32: 65525 + rng.randrange(0, 40)}[ft]
+    k = rng.randrange(1, 4)
+    vol = {"kind": "builder", "ft": ft, "bps": bps, "spc": 1, "n": n, "nfats": rng.choice([1, 2]), "pad": "zero", "extra_fat_sectors": rng.choice([0, 1]),
+           "bad": [[n + 2 - k, n + 1]], "tail": 4096, "rootn": 32,
+           "tree": [{"kind": "f", "name": "seed.txt", "sfn": "SEED    TXT", "size": 600, "pat": 2}]}
+    if ft == 32:
+        vol["rsvd"] = 32
+        vol["fsinfo"] = {"free": "exact", "next": rng.choice([n + 1, n + 2 - k, n, n + 1 - k])}
+    return vol, bps
